@@ -12,14 +12,14 @@ WHEN = {
  "C30-A":"before","C30-B":"before","C08-A":"before","C08-B":"before","C44-A":"before","C44-B":"before",
  "C46-A":"before","C46-B":"before","C31-A":"before","C31-B":"before","C48-A":"before","C48-B":"before",
  "C36-A":"before","C36-B":"after","C34-A":"missed","C34-B":"before","C07-A":"before","C07-B":"before",
- "C17-A":"before","C17-B":"missed","C25-A":"before","C25-B":"missed",
+ "C17-A":"before","C17-B":"missed","C25-A":"before","C25-B":"after",
  "C13-A":"before","C13-B":"after","C15-A":"after","C15-B":"after","C10-A":"after","C10-B":"missed",
  "C01-A":"planned","C01-B":"after","C12-A":"after","C12-B":"after","C18-A":"after","C18-B":"after",
  "C05-A":"planned","C05-B":"after","C03-A":"after","C03-B":"after",
  "C04-A":"after","C04-B":"after","C09-A":"before","C09-B":"after","C06-A":"before","C06-B":"after",
  "C02-A":"missed","C02-B":"after","C35-A":"after","C35-B":"before","C27-A":"after","C27-B":"after",
  "C32-A":"before","C32-B":"missed","C33-A":"planned","C33-B":"planned",
- "C29-A":"after","C29-B":"after","C23-A":"after","C23-B":"missed","C19-A":"after","C19-B":"after","C21-A":"missed","C21-B":"after","C24-A":"missed","C24-B":"after","C22-A":"after","C22-B":"missed","C20-A":"after","C20-B":"after","C41-A":"after","C41-B":"after","C11-C":"after","C11-D":"missed","C19-C":"missed","C19-D":"before","C20-C":"after","C20-D":"before","C22-C":"after","C22-D":"before","C37-C":"missed","C37-D":"before","C40-C":"before","C40-D":"before","C41-C":"before","C41-D":"after","C42-C":"missed","C42-D":"before","C11-A":"after","C11-B":"before","C40-A":"after","C40-B":"after","C37-A":"after","C37-B":"after","C47-A":"after","C47-B":"after","C43-A":"before","C43-B":"before","C42-A":"missed","C42-B":"after","C28-A":"before","C28-B":"after","C26-A":"after","C26-B":"before",
+ "C29-A":"after","C29-B":"after","C23-A":"after","C23-B":"missed","C19-A":"after","C19-B":"after","C21-A":"missed","C21-B":"after","C24-A":"missed","C24-B":"after","C22-A":"after","C22-B":"missed","C20-A":"after","C20-B":"after","C41-A":"after","C41-B":"after","C11-C":"after","C11-D":"missed","C19-C":"missed","C19-D":"before","C20-C":"after","C20-D":"before","C22-C":"after","C22-D":"before","C37-C":"missed","C37-D":"before","C40-C":"before","C40-D":"before","C41-C":"before","C41-D":"after","C42-C":"after","C42-D":"before","C11-A":"after","C11-B":"before","C40-A":"after","C40-B":"after","C37-A":"after","C37-B":"after","C47-A":"after","C47-B":"after","C43-A":"before","C43-B":"before","C42-A":"missed","C42-B":"after","C28-A":"before","C28-B":"after","C26-A":"after","C26-B":"before",
 }
 rows = []
 for d in sorted(glob.glob("/verif/seeded/C*-*")):
